@@ -158,4 +158,19 @@ theorem end_to_end_find (ps : List (Nat × CAst)) (hn : (ps.map (·.1)).Nodup) (
     rw [this]; exact hn
   · exact compiled_langEquiv ps cm
 
+/-- **the whole token stream of a compiled single-mode scanner**: for every pattern list with
+    distinct token types, every class function and every input, iterating the model (compiler,
+    finder, iterator) yields the reference tokenization driven by the pattern-level rule -/
+theorem end_to_end_tokens (ps : List (Nat × CAst)) (hn : (ps.map (·.1)).Nodup) (cm : Nat → Nat → Bool)
+    (cfg : List ModeCfg) (find' : Finder)
+    (hspec : ∀ w, patFindOK cm (patternsOf ps) w (find' 0 w) = true)
+    (hother : ∀ m, m ≠ 0 → ∀ w, find' m w = none) (input : List Nat) (n : Nat) (hlen : input.length < n) :
+    Iter.run cfg (modelFinder [⟨compileMode ps, []⟩] cm) n (Iter.new input) = scanFrom cfg find' 0 input 0 := by
+  have hn' : ((patternsOf ps).map (·.1)).Nodup := by
+    have : (patternsOf ps).map (·.1) = ps.map (·.1) := by
+      simp only [patternsOf, List.map_map]; rfl
+    rw [this]; exact hn
+  exact tokens_are_longest_match ⟨compileMode ps, []⟩ cm cm (patternsOf ps) rfl (compiled_prio ps) hn'
+    (compiled_langEquiv ps cm) cfg find' hspec hother input n hlen
+
 end Scnr.C01
